@@ -474,6 +474,16 @@ func main() {
 	}
 	run.CountN("family:exhaustive-3-siblings", nEx)
 	run.Note("exhaustive family: %d of %d cases (modes^3 x release orders; stride %d selected by the seed)", nEx, len(ex), stride)
+	// scale boundaries
+	wc := wideCases()
+	for _, c := range wc {
+		if pa.enough() {
+			break
+		}
+		c := c
+		pa.record(c, pa.exec(&c), false)
+	}
+	run.CountN("family:wide", len(wc))
 	// apifu's built-in node / nodes fields
 	nm := nodeMatrix(procs)
 	for _, c := range nm {
